@@ -195,6 +195,32 @@ def main():
                 rec["bounded"] = why
                 break
     scenario_runs, scenario_violations = [], []
+    # BOUNDED AUDITS (module table AUDITS: name -> scenario): functions that are outside the contracts' reach (byte-level decoders of
+    # numpy / astropy / PIL / pandas) are checked natively on a stated finite family of inputs in EVERY tier. An audit that fails is a
+    # failing input of the real code (violation with its replay file); one that holds proves nothing beyond its family and is listed
+    # under coverage.bounded, never among the discharged obligations.
+    audit_runs = []
+    only = a.unit
+    for aname, afn in (getattr(mod, "AUDITS", {}) or {}).items():
+        if only and not re.search(only, "audit." + aname):
+            continue
+        try:
+            sc = afn({})
+        except Exception:
+            continue
+        arec = {"name": f"{prop}.audit.{aname}", "function": sc.get("function", ""), "scenario": sc, "witness": {}, "detail": "bounded native audit: " + str(sc.get("expect", ""))}
+        path, outcome = replay(prop, arec, 900 + len(audit_runs))
+        st = outcome.get("status")
+        audit_runs.append({"audit": aname, "status": st, "bound": sc.get("bound", sc.get("expect", ""))})
+        if st == "violated":
+            scenario_violations.append((arec, path, outcome))
+        else:
+            try:
+                os.unlink(path)
+            except OSError:
+                pass
+            if st != "held":
+                print(f"AUDIT-ERROR property={prop} audit={aname} status={st} {str(outcome.get('stderr') or outcome.get('detail'))[-300:]}")
     if os.environ.get("PYVC_REPLAY_SELFTEST"):
         # every distinct native scenario attached to an obligation, built from an EMPTY witness, is run on the tree under test. On the
         # unchanged tree each must hold (tools/replay_selftest.py). In the thorough tier a scenario that FAILS on the tree is a failing
@@ -309,7 +335,7 @@ def main():
         exit_code = 3
     for rec, path, outcome in scenario_violations:
         print(f"VIOLATION property={prop} replay={path}")
-        print(f"  native scenario of obligation {rec['name']} FAILS on the tree under test (thorough tier, bounded): {str(outcome.get('detail'))[:300]}")
+        print(f"  native scenario of obligation {rec['name']} FAILS on the tree under test (bounded native run): {str(outcome.get('detail'))[:300]}")
         exit_code = 1
     if isinstance(extra, dict) and extra.get("violations"):
         for v in extra["violations"]:
@@ -376,7 +402,8 @@ def main():
                        ([{"kind": "native stand-in scenarios run for undecided obligations (bounded; a passing scenario proves nothing)", "runs": standins}] if standins else []) +
                        ([{"kind": "native scenarios of the obligations run on the tree with default inputs (bounded; a passing scenario proves nothing)", "bound": "one run per distinct scenario",
                           "runs": len(scenario_runs), "held": sum(1 for x in scenario_runs if x["status"] == "held"),
-                          "not_held": [x for x in scenario_runs if x["status"] != "held"][:20]}] if scenario_runs else []),
+                          "not_held": [x for x in scenario_runs if x["status"] != "held"][:20]}] if scenario_runs else []) +
+                       ([{"kind": "bounded native audits of functions outside the contracts' reach (run in every tier; a passing audit proves nothing beyond its family)", "runs": audit_runs}] if audit_runs else []),
             "repo": repo_root(),
         },
         "assumptions": sorted(assumptions | set(getattr(mod, "ASSUMPTIONS", []))),
